@@ -127,6 +127,23 @@ func (c *Canon) of(v ssa.Value) string {
 		return c.call(x)
 	case *ssa.Extract:
 		t := x.Tuple
+		if call, ok := t.(*ssa.Call); ok {
+			if callee := call.Common().StaticCallee(); callee != nil && c.Inline && c.inlinable(callee) && len(c.env) < 6 {
+				ret := callee.Blocks[0].Instrs[len(callee.Blocks[0].Instrs)-1].(*ssa.Return)
+				if x.Index < len(ret.Results) {
+					env := map[*ssa.Parameter]string{}
+					for i, p := range callee.Params {
+						if i < len(call.Common().Args) {
+							env[p] = c.Of(call.Common().Args[i])
+						}
+					}
+					c.env = append(c.env, env)
+					s := c.Of(ret.Results[x.Index])
+					c.env = c.env[:len(c.env)-1]
+					return s
+				}
+			}
+		}
 		switch tt := t.(type) {
 		case *ssa.Lookup:
 			if tt.CommaOk {
